@@ -45,6 +45,11 @@ def plan(tier, seed):
             for c3 in SYMS:
                 specs.append({"name": f"exh6-c1{b}{c3}", "kind": "exh", "prefix": ["c1", b, c3], "depth": 6,
                               "exact_len": True, "budget_s": 1500})
+    # a restart of the server process between connections (symbol rs): every sequence of exactly four symbols over
+    # {c1, c2, u1, u2, s, rs} that contains a restart
+    for a in PSYMS + ["rs"]:
+        specs.append({"name": f"restart-{a}", "kind": "restart", "first": a, "budget_s": 120 if tier == "quick" else 600,
+                      "length": 4 if tier == "quick" else 5})
     # bursts: 2..4 requests written back-to-back on one connection, without waiting for the replies
     for a in PSYMS:
         specs.append({"name": f"burst-{a}", "kind": "burst", "first": a, "depth": 3 if tier == "quick" else 4,
@@ -76,6 +81,10 @@ class Fixture:
         self.edb = {k: sch.EDBSetup(self.key, {self.kw: list(v), b"other": [b"\x77" * 8]}).serialize()
                     for k, v in self.ids.items()}
         self.token = sch.TokenGen(self.key, self.kw).serialize()
+        # more than one question can be asked of a ready service: another stored keyword and an absent one
+        self.tokens = {"kw": self.token, "other": sch.TokenGen(self.key, b"other").serialize(),
+                       "absent": sch.TokenGen(self.key, b"no-such-keyword").serialize()}
+        self.answers = {"other": [b"\x77" * 8], "absent": []}
         self.L = L
 
 
@@ -135,7 +144,10 @@ class Runner:
         foreign = [x for x in near if x != sid]
         model = Model()
         trace = []
-        case = {"sequence": list(seq), "trace": trace}
+        n_search = 0
+        which_tok, sent_digest = "kw", b"digest"
+        digest_mode = ["constant", "sha256", "omitted"][self.n % 3]
+        case = {"sequence": list(seq), "trace": trace, "token_digest_mode": digest_mode}
 
         def viol(sig, msg):
             acc.violation("server:" + sig, msg + f"  (sequence {' '.join(seq)})", dict(case, sid=sid))
@@ -175,7 +187,36 @@ class Runner:
                 elif sym in ("u1", "u2"):
                     await conn.send("upload_edb", fx.edb["e" + sym[1]])
                 elif sym == "s":
-                    await conn.send("token", fx.token, token_digest=b"digest")
+                    # the first search of a sequence asks for the main keyword; later ones rotate through another stored
+                    # keyword and an absent one.  The optional token_digest field is, per sequence, a constant, the
+                    # real SHA-256 of the token, or left out (the server only echoes it).
+                    which_tok = ["kw", "other", "absent", "kw"][n_search % 4]
+                    n_search += 1
+                    tok = fx.tokens[which_tok]
+                    if digest_mode == "constant":
+                        sent_digest = b"digest"
+                    elif digest_mode == "sha256":
+                        import hashlib
+                        sent_digest = hashlib.sha256(tok).digest()
+                    else:
+                        sent_digest = None
+                    acc.count("search_requests." + which_tok)
+                    acc.count("search_requests.digest-" + digest_mode)
+                    if sent_digest is None:
+                        await conn.send("token", tok)
+                    else:
+                        await conn.send("token", tok, token_digest=sent_digest)
+                elif sym == "rs":
+                    # the server process is restarted (through the repository's own run_server): durable state only
+                    await conn.close()
+                    await wh.settle(10)
+                    await asyncio.sleep(0.01)
+                    await self.server.restart()
+                    proxy = self.server.env["proxy"]
+                    acc.count("server_restarts")
+                    if not await connect("after-server-restart"):
+                        return
+                    continue
                 elif sym == "fo":
                     f1, f2, f3 = rng.choice(foreign), rng.choice(foreign), rng.choice(foreign)
                     await conn.send("config", pickle.dumps(fx.c2), sid=f1)
@@ -191,6 +232,8 @@ class Runner:
                     await conn.send(ut, payload, token_digest=b"digest")
                     acc.add("unknown_types", ut)
                 expected = model.step(sym)
+                if sym == "s" and isinstance(expected, tuple) and which_tok != "kw":
+                    expected = ("result", which_tok)
                 if expected is None:
                     trace.append([sym, "no-reply-expected"])
                     continue
@@ -235,10 +278,11 @@ class Runner:
                         got = "ok"
                         acc.count("events.ok")
                     elif verdict == "result":
-                        which = [k for k, v in fx.ids.items() if payload == v]
+                        table = fx.ids if which_tok == "kw" else {which_tok: fx.answers[which_tok]}
+                        which = [k for k, v in table.items() if list(payload) == v]
                         got = ("result", which[0] if which else ("unknown-result", repr(payload)[:80]))
                         acc.count("events.result")
-                        if ev[1].get("token_digest") != b"digest":
+                        if sent_digest is not None and ev[1].get("token_digest") != sent_digest:
                             viol("token-digest-not-echoed", "the RESULT message does not carry the request's token digest")
                             return
                     else:
@@ -464,6 +508,18 @@ async def amain(spec, acc, ctx, virtual=True):
                             any(x in ("c1", "u1", "u2", "c2") for x in sq[:sq.index("re")]):
                         await retry_on_timeout(acc, lambda: r.run_sequence(sq, gated="late"))
         acc.add("exhaustive_prefixes", "".join(pre))
+    elif kind == "restart":
+        for rest in itertools.product(PSYMS + ["rs"], repeat=spec["length"] - 1):
+            sq = [spec["first"]] + list(rest)
+            if "rs" not in sq:
+                continue
+            if ctx.out_of_time() or acc.counters.get("timeouts", 0) > 3 or acc.n_violations > 25:
+                acc.count("restart_incomplete")
+                await server.stop()
+                return
+            await retry_on_timeout(acc, lambda: r.run_sequence(sq, gated=False))
+            acc.count("restart_sequences")
+        acc.add("restart_prefixes", spec["first"])
     elif kind == "burst":
         for prelude in ([], ["c1"], ["c1", "u1"]):
             for L in range(2, spec["depth"] + 1):
@@ -479,7 +535,7 @@ async def amain(spec, acc, ctx, virtual=True):
             if ctx.out_of_time() or acc.counters.get("timeouts", 0) > 3 or acc.n_violations > 25:
                 break
             n = ctx.rng.randint(4, 12) if i % 5 else ctx.rng.randint(20, 40)   # every fifth: a long conversation
-            sq = [ctx.rng.choice(SYMS) for _ in range(n)]
+            sq = [ctx.rng.choice(SYMS + (["rs"] if i % 3 == 0 else [])) for _ in range(n)]
             if n >= 20:
                 acc.count("long_sequences")
                 sq = ["c1"] + sq[:5] + ["u1"] + sq[5:]
@@ -530,6 +586,12 @@ def finish(m, tier, seed):
     exhaustive = len(m["sets"].get("exhaustive_prefixes", [])) == want_pref and not c.get("exhaustive_incomplete")
     if not exhaustive:
         inc.append("the exhaustive enumeration did not complete")
+    if len(m["sets"].get("restart_prefixes", [])) < len(PSYMS) + 1 or c.get("restart_incomplete"):
+        inc.append("the enumeration of sequences with a server restart did not complete")
+    for k in ("search_requests.other", "search_requests.absent", "search_requests.digest-omitted",
+              "search_requests.digest-sha256"):
+        if c.get(k, 0) < 50:
+            inc.append(f"only {c.get(k, 0)} {k}")
     if len(m["sets"].get("burst_prefixes", [])) < len(PSYMS) or c.get("burst_incomplete"):
         inc.append("the burst enumeration did not complete")
     pairs = set(m["sets"].get("pairs", []))
